@@ -57,11 +57,20 @@ def expected (kind : String) (src : V) (input : Bytes) : Option String :=
     | _ => none
 
 /-- does the source value contain a string (or key) that starts with U+FEFF (EF BB BF)?  Those are the
-    values the known finding `utf8-bom-stripped` excuses. -/
-partial def hasBomString : V → Bool
-  | .str (0xef :: 0xbb :: 0xbf :: _) => true
-  | .arr xs => xs.any hasBomString
-  | .map kvs => kvs.any (fun (k, v) => hasBomString k || hasBomString v)
+    values the known finding `utf8-bom-stripped` excuses.  cbor (`anywhere`): a U+FEFF anywhere in a text
+    string, because an indefinite-length string is stripped chunk by chunk and a chunk may start there. -/
+def bomAt : Bytes → Bool
+  | 0xef :: 0xbb :: 0xbf :: _ => true
+  | _ => false
+
+def bomInside : Bytes → Bool
+  | [] => false
+  | b :: r => bomAt (b :: r) || bomInside r
+
+partial def hasBomString (anywhere : Bool) : V → Bool
+  | .str s => if anywhere then bomInside s else bomAt s
+  | .arr xs => xs.any (hasBomString anywhere)
+  | .map kvs => kvs.any (fun (k, v) => hasBomString anywhere k || hasBomString anywhere v)
   | _ => false
 
 def stepC16 (op obs : String) : String :=
@@ -83,7 +92,7 @@ def stepC16 (op obs : String) : String :=
               | some fx => m == obs && showRes input.length (fx input) == some exp
               | none => false
             if known then s!"KNOWN {key} expected={exp}"
-            else if m == obs && hasBomString src && kind != "trunc" && kind != "bad" then
+            else if m == obs && hasBomString (fmt == "cbor") src && kind != "trunc" && kind != "bad" then
               s!"KNOWN utf8-bom-stripped expected={exp}"
             else s!"PROPFAIL expected={exp}{div}"
     | none, _, _ => "BADOP format"
